@@ -51,6 +51,18 @@ def secret(rng):
     return v.to_bytes(32, 'big') + bytes([rng.randrange(2)])
 
 
+def secrets_distinct(rng, n):
+    """n secrets with pairwise different scalars (a "foreign" key must not be one of the listed keys in
+    another encoding)"""
+    out, seen = [], set()
+    while len(out) < n:
+        x = secret(rng)
+        if x[:32] not in seen:
+            seen.add(x[:32])
+            out.append(x)
+    return out
+
+
 def rand_spend(rng):
     nin = rng.choice([1, 2, 3, 4])
     nout = rng.choice([0, 1, 2, 3, 4])
@@ -137,7 +149,7 @@ def generate(rng, tier, boost):
         else:
             nk, m = 1, 1
         wrongkey = 1 if rng.random() < 0.08 else 0
-        secrets = [secret(rng) for _ in range(nk + (max(m, 1) if wrongkey else 0))]
+        secrets = secrets_distinct(rng, nk + (max(m, 1) if wrongkey else 0))
         if wrongkey:
             # signers come first: make them foreign by listing the script's keys after them
             pass
@@ -157,7 +169,7 @@ def generate(rng, tier, boost):
             nk = rng.choice([1, 2, 3, 3, 4]); m = rng.randrange(1, nk + 1)
         else:
             nk, m = 1, 1
-        secrets = [secret(rng) for _ in range(nk + 1)]        # the last one is foreign
+        secrets = secrets_distinct(rng, nk + 1)                # the last one is foreign
         r = rng.random()
         honest = sorted(rng.sample(range(nk), m))
         if r < 0.4:
